@@ -303,6 +303,15 @@ func (fm *FileModel) CompareRejects(w *World, m *skel.Method, field string, exp 
 			issues = append(issues, Issue{Rule: "A-ERRDROP2", Construct: "pattern matcher error discarded", Site: siteOf(hit.hole),
 				Msg: fmt.Sprintf("%s: `%s` discards the error of %s: a pattern Go's regexp cannot compile makes every value fail validation instead of failing generation", what, r.Init, r.Call)})
 		}
+		if hit.hole != nil {
+			for _, t := range hit.hole.Tr {
+				if strings.HasPrefix(t, "narrow-") {
+					issues = append(issues, Issue{Rule: "A-REJ:lossy", Construct: "limit passed through a narrowing integer conversion for " + strings.SplitN(e.Kw, "@", 2)[0], Site: siteOf(hit.hole),
+						Msg: fmt.Sprintf("%s: the limit of %s is converted to %s before it is printed (`%s`): a limit beyond that type's range wraps around (2^31 becomes negative, 2^32 becomes 0), so valid values are refused or the limit is dropped", what, e.Kw, strings.TrimPrefix(t, "narrow-"), r.Cond)})
+					break
+				}
+			}
+		}
 		// lossy transform on the bound
 		if hit.hole != nil && !roundedOK && !w.decidedIntegral(hit.hole.A) {
 			for _, t := range hit.hole.Tr {
